@@ -305,8 +305,8 @@ class DeviceBench:
                         trail_nz += 1 if b else 0          # after the framing only logical idle may follow in the word
                     else:
                         data.append(b)
-            if len(data) > 1024 + 4:
-                # longer than any data packet payload [USB3.2 8.6]: reported by size only (rejected by the specification as
+            if len(data) > 256 + 4:
+                # far longer than anything this device configuration sends (descriptors <= 31, MaxPkt 32 bytes): by size only (rejected by the specification as
                 # an unexpected event; keeps the CRC-32 work of the trace check bounded)
                 st["dph"] = None
                 log({"e": "ddp_runaway", "n": len(data)})
